@@ -89,6 +89,38 @@ theorem C16_reader_reads (chunk : Bytes) (conn : List Bytes) (hne : ∀ r ∈ co
   simp only [maxMsg] at this
   omega
 
+/-- **Time, full statement**: a call with read timeout `t` is over within `t`, whatever the peer does. -/
+def C16_reader_time_full : Prop :=
+  ∀ (t : Nat) (chunk : Bytes) (conn : List Bytes) (delays : List Nat), (∀ r ∈ conn, r ≠ []) →
+    elapsed t delays (readMessage chunk conn).reads ≤ t
+
+/-- refuted (finding): the deadline is re-armed before every read, so a peer that sends one byte just
+    before each deadline keeps the reader — and the node's serial accept loop that called it — busy. Two
+    one-byte reads, each arriving after 1000 of a 1000 ms timeout, already take 2000. -/
+theorem C16_reader_time_counterexample : ¬ C16_reader_time_full := by
+  intro h
+  have := h 1000 [] [[87], [1]] [1000, 1000] (by decide)
+  revert this; decide
+
+/-- what does hold: the time is bounded by the number of reads times the timeout, i.e. by
+    (header + 65535 + 1) timeouts — about 18 hours for the 1 s used by Start/Accept/Join. -/
+theorem C16_reader_time_partial (t : Nat) (chunk : Bytes) (conn : List Bytes) (delays : List Nat)
+    (hne : ∀ r ∈ conn, r ≠ []) :
+    elapsed t delays (readMessage chunk conn).reads ≤ (Hs.needBase + Hs.maxLen + 1) * t := by
+  have hr := C16_reader_reads chunk conn hne
+  have hsum : ∀ (l : List Nat), (l.map (fun d => min d t)).sum ≤ l.length * t := by
+    intro l
+    induction l with
+    | nil => simp
+    | cons a l ih =>
+      simp only [List.map_cons, List.sum_cons, List.length_cons]
+      have : min a t ≤ t := Nat.min_le_right _ _
+      rw [Nat.add_mul]; omega
+  unfold elapsed
+  refine Nat.le_trans (hsum _) (Nat.mul_le_mul_right _ ?_)
+  rw [List.length_take]
+  exact Nat.le_trans (Nat.min_le_left _ _) hr
+
 /- non-vacuity: a well-formed message in two pieces is read; an inflated length field is refused
    before anything is buffered for it; a truncated message ends in the read error -/
 example : (readMessage [] [[87, 1, 0, 0], [0, 2, 9, 8]]).res = .ok [9, 8] := by decide
